@@ -22,7 +22,12 @@ RULE = ("exhaustive: every table type (every bnpdataclass of bionumpy.datatypes 
         "around the first differing letter into construction / replace / add_fields; sort_by text keys (prefix relations, "
         "equal-length keys in alphabets whose code order is not the letter order, one-letter rows, one 500 kB row); two "
         "add_fields calls with different types; nested classes to depth 3 through dict and pandas; narrow_type, "
-        "dynamic_concatenate, apply_to_npdataclass; history pairs. sort_by orders numeric fields by value and text fields as "
+        "dynamic_concatenate, apply_to_npdataclass; history pairs; every one of these table programs and single-entry picks also on "
+        "the same table in its two other provenances: written as tab-separated text and LAZILY read back (bnp.open(..., buffer_type="
+        "get_bufferclass_for_datatype(cls)).read(); concatenation with a second lazily read / an in-memory operand), and built from "
+        "text columns handed over as EncodedArray / EncodedRaggedArray over character codes in int16/int32/int64/uint16/uint32; "
+        "the row number of t[i] / column[i] as Python int and as NumPy scalar of nine integer types; wide-code text into every "
+        "text kind through constructor / replace / add_fields (same text or raise). sort_by orders numeric fields by value and text fields as "
         "byte strings. Non-trivial = >= 2 ops on a table with >= 2 column kinds, or an empty / single-row operand")
 EXHAUSTIVE = {"quick": False, "thorough": False}
 MODEL_OPS = {"program", "roundtrip", "dict", "pick", "sort_float"}
@@ -54,7 +59,8 @@ MANIFEST = {
             "classes of bionumpy.datatypes and dynamically made ones with every column kind, 0..N rows, single operations "
             "exhaustively and random programs, nested classes up to depth 3, against the Lean model, the Lean row-level spec and a "
             "pure-Python list-of-tuples oracle; every final conversion (tolist, iteration, dict, pandas, entry tuples) must "
-            "reproduce the same rows and operands must be unchanged.",
+            "reproduce the same rows and operands must be unchanged; the same programs on lazily read tables (file readers' "
+            "table class) and on tables whose text columns hold wide integer character codes.",
     "note": "Per-type indexing/concatenation lives in npstructures and the column classes (externals, exercised by the "
             "correspondence); pandas DataFrame construction / to_dict('series') are assumed content-preserving. Sort ties between "
             "different rows are not exercised (NumPy's default sort is not stable). The pandas round trip and 'operands unchanged' "
@@ -363,8 +369,24 @@ def canon_cell(kind, v):
     return str(v)
 
 
-def _column(m, kind, seeds):
+WIDE_DT = ["int16", "int32", "int64", "uint16", "uint32"]
+WIDE_KINDS = ("str", "dna", "strand")      # text kinds a caller may hand over as already-encoded character codes
+
+
+def _wide_text(vals, dtype, flat=False):
+    """the texts as an EncodedArray / EncodedRaggedArray the CALLER built from its own NumPy array of character codes
+    (the documented EncodedArray constructor), the codes stored in an integer dtype wider than one byte"""
+    from bionumpy.encoded_array import EncodedArray, EncodedRaggedArray, BaseEncoding
+    codes = np.array([ord(ch) for v in vals for ch in v], dtype=np.dtype(dtype))
+    if flat:
+        return EncodedArray(codes, BaseEncoding)
+    return EncodedRaggedArray(EncodedArray(codes, BaseEncoding), [len(v) for v in vals])
+
+
+def _column(m, kind, seeds, wide=None):
     vals = [cell(kind, s) for s in seeds]
+    if wide and kind in WIDE_KINDS:
+        return _wide_text(vals, wide, flat=(kind == "strand"))
     if kind == "inner":
         return m["Inner"]([v[0] for v in vals], [v[1] for v in vals])
     if kind == "bigint":
@@ -388,9 +410,68 @@ def _column(m, kind, seeds):
     return vals
 
 
-def _table(m, tname, cols):
+class NotLazy(Exception):
+    pass
+
+
+def _wide_of(src):
+    return src[5:] if src and src.startswith("wide:") else None
+
+
+def file_type(tname):
+    """can a table of this type be had from a delimited text file (the generic buffer class of its data class)?
+    Nested-table columns have no text form; the GFF / GTF family is read eagerly by design (known finding of C04)."""
+    kinds = _mods()["classes"][tname][1]
+    return "inner" not in kinds and "bool" not in kinds and not tname.startswith(("GFF", "GTF"))
+
+
+def _cell_text(kind, s):
+    v = cell(kind, s)
+    if kind == "li":
+        return ",".join(str(x) for x in v)
+    if kind == "float":
+        return repr(float(v))
+    return str(v)
+
+
+def _read_table(m, tname, cols):
+    """the same table as the file readers hand it out: the rows written as tab-separated text (by this harness) and read
+    with `bnp.open(..., buffer_type=get_bufferclass_for_datatype(cls)).read()` — a LAZILY parsed table of the same type"""
+    import os
+    import tempfile
+    from bionumpy.io.delimited_buffers import get_bufferclass_for_datatype
+    from bionumpy.bnpdataclass.lazybnpdataclass import LazyBNPDataClass
     cls, kinds, names = m["classes"][tname]
-    return cls(*[_column(m, k, c) for k, c in zip(kinds, cols)])
+    key = ("buf", tname)
+    if key not in _CACHE:
+        _CACHE[key] = get_bufferclass_for_datatype(cls, delimiter="\t")
+    n = len(cols[0]) if cols else 0
+    fd, path = tempfile.mkstemp(suffix=".tsv", prefix="c19_")
+    try:
+        with os.fdopen(fd, "w") as f:
+            for i in range(n):
+                f.write("\t".join(_cell_text(k, c[i]) for k, c in zip(kinds, cols)) + "\n")
+        with m["bnp"].open(path, buffer_type=_CACHE[key]) as f:
+            t = f.read()
+    finally:
+        os.unlink(path)
+    if n and not isinstance(t, LazyBNPDataClass):
+        raise NotLazy(type(t).__name__)
+    return t
+
+
+def _table(m, tname, cols, src=None):
+    cls, kinds, names = m["classes"][tname]
+    if src == "file":
+        return _read_table(m, tname, cols)
+    wide = _wide_of(src)
+    return cls(*[_column(m, k, c, wide) for k, c in zip(kinds, cols)])
+
+
+def _dcls(t):
+    """the table's data class (for a lazily read table: the class of the table with all columns loaded)"""
+    from bionumpy.bnpdataclass.lazybnpdataclass import LazyBNPDataClass
+    return type(t.get_data_object()) if isinstance(t, LazyBNPDataClass) else type(t)
 
 
 def _py(v):
@@ -511,6 +592,8 @@ def oracle(c):
         return {"rows": c["rows"], "width": c["width"]}
     if c["op"] == "construct_enc":
         return {"same_text_or_raise": c["text"]}
+    if c["op"] == "wide_text":
+        return {"same_text_or_raise": c["texts"]}
     if c["op"] == "sort_text":
         order = sorted(range(len(c["texts"])), key=lambda i: c["texts"][i].encode())
         return {"ids": order, "texts": [c["texts"][i] for i in order]}
@@ -720,6 +803,36 @@ def _sort_unambiguous(c):
     return True
 
 
+NPI = ["int64", "int32", "intp", "int8", "uint8", "int16", "uint16", "uint64", "uint32"]      # NumPy integer scalar types of a row number
+
+
+def _npi(i, j):
+    """how the row number i is spelled: a Python int (False) or one of the NumPy integer scalar types (unsigned: i >= 0)"""
+    if j % 2:
+        return False
+    t = NPI[(j // 2) % len(NPI)]
+    return "int64" if (t.startswith("u") and i < 0) or not -128 <= i <= 127 else t
+
+
+def srcs(tname, j=0):
+    """where else a table of this type comes from (None = the constructor given lists / plain arrays): "file" = written
+    as text and lazily read back; "wide:<dtype>" = its text columns handed over as encoded arrays of wide integer codes"""
+    kinds = _mods()["classes"][tname][1]
+    out = []
+    if file_type(tname):
+        out.append("file")
+    if any(k in WIDE_KINDS for k in kinds):
+        out.append("wide:" + WIDE_DT[j % len(WIDE_DT)])
+    return out
+
+
+def _with_src(c, src):
+    c = dict(c)
+    if src:
+        c["src"] = src
+    return c
+
+
 def cases(tier, rng):
     big = tier in ("thorough", "widen")
     names = type_names()
@@ -730,9 +843,15 @@ def cases(tier, rng):
         for n in (0, 1, 2, 3):
             cols = [[10 + 3 * i for i in range(n)] for _ in kinds]
             yield {"op": "program", "type": tname, "cols": cols, "ops": [], "final": "all"}
+            for src in srcs(tname, n):
+                yield {"op": "program", "type": tname, "cols": cols, "ops": [], "final": "all", "src": src}
             for i, op in enumerate(_single_ops(kinds, n, rng)):
                 fin = "all" if (big or tname.startswith("D_")) else FINALS[(i + n) % len(FINALS)]
                 yield {"op": "program", "type": tname, "cols": cols, "ops": [op], "final": fin}
+                # the same table as the file readers hand it out (lazily parsed) / with text columns given as wide codes
+                for si, src in enumerate(srcs(tname, i + n)):
+                    yield {"op": "program", "type": tname, "cols": cols, "ops": [op], "src": src,
+                           "final": "all" if big else FINALS[(i + n + si + 1) % len(FINALS)]}
         # rows <-> table
         w = len(kinds)
         for rows in ([], [[5] * w], [[5] * w, [6] * w, [7] * w], [[5] * (w + 1)], [[5] * (w + 1), [6] * (w + 1)]):
@@ -773,6 +892,11 @@ def cases(tier, rng):
                         continue                      # library types: the borders and one inside
                     yield {"op": "pick", "type": tname, "cols": cols, "ops": sel, "i": i, "np": (i + si) % 2 == 0,
                            "by": "column" if (dyn and (i + n) % 2 == 0) else "table"}
+                    # every spelling of the row number on every provenance of the table (built, lazily read, wide codes)
+                    for sj, src in enumerate([None] + srcs(tname, i + si)):
+                        for spell in [_npi(i, 2 * (i + si + sj + n))] + ([False] if src and (dyn or big) else []):
+                            yield _with_src({"op": "pick", "type": tname, "cols": cols, "ops": sel, "i": i, "np": spell,
+                                             "by": "column" if (dyn and (i + n + sj) % 2 == 1) else "table"}, src)
     # 1i. float keys with the values an order-by-comparison shortcut gets wrong: NaN (every comparison False), +-inf,
     #     -0.0 / 0.0 (equal, different bits): every sequence up to length 3 (4 thorough), longer ones sampled
     FV = ["nan", "-inf", "-0.0", "0.0", "1.0", "2.5", "inf"]
@@ -795,6 +919,9 @@ def cases(tier, rng):
             for op in _single_ops(kinds, n2, rng):
                 fi += 1
                 yield {"op": "program", "type": tname, "cols": cols, "ops": [first, op], "final": FINALS[fi % len(FINALS)], "fresh": True}
+                for si, src in enumerate(srcs(tname, fi)):
+                    yield {"op": "program", "type": tname, "cols": cols, "ops": [first, op], "src": src,
+                           "final": FINALS[(fi + si + 1) % len(FINALS)], "fresh": True}
     # 1b. typed construction: every field kind x every argument form
     for k in KIND_ORDER:
         for f in FORM_ORDER:
@@ -824,6 +951,13 @@ def cases(tier, rng):
                 if big or ci % 4 == 0:
                     yield {"op": "construct_enc", "type": "D_all", "declared": D, "source": S, "text": t, "how": "construct",
                            "shape": "flat"}
+    # 1d'. text fields given character codes in an integer dtype wider than one byte (an EncodedArray the caller made from
+    #      its own code array): every text kind x dtype x construction / replace / add_fields: the same text, or a refusal
+    for kind, texts in (("str", ["ACG", "", "Tn x"]), ("sid", ["id1", "chr2_x", "z"]), ("dna", ["ACG", "", "TTGA"]), ("strand", ["+", "-", "."])):
+        for dt in WIDE_DT + ["uint8", "int8", "uint64"]:
+            for n in (0, 1, 3):
+                for how in hows:
+                    yield {"op": "wide_text", "type": "D_all", "kind": kind, "dtype": dt, "texts": texts[:n], "how": how}
     # 1e. sort_by a text key where one key is another key plus trailing letters of the smallest code, keys that differ
     #     only in length, the empty key; every arrangement (longer first, ...)
     fam = {"dna": ["AC", "ACA", "ACAA", "", "A", "C", "AAC", "CA"],
@@ -894,6 +1028,9 @@ def cases(tier, rng):
         kinds = m["classes"][tname][1]
         cols, ops = _random_program(kinds, rng, 12)
         c = {"op": "program", "type": tname, "cols": cols, "ops": ops, "final": rng.choice(FINALS), "fresh": rng.random() < 0.5}
+        src = rng.choice([None, None] + srcs(tname, rng.randrange(len(WIDE_DT))))
+        if src:
+            c["src"] = src
         if _sort_unambiguous(c):
             yield c
 
@@ -909,9 +1046,10 @@ def nontrivial(c):
 
 # ---------------------------------------------------------------- implementation
 
-def _apply_impl(m, t, op, kinds, names):
+def _apply_impl(m, t, op, kinds, names, src=None, tname=None):
     bnp = m["bnp"]
     k = op["k"]
+    wide = _wide_of(src)
     if k == "take":
         py = op["py"]
         if py[0] == "slice":
@@ -922,9 +1060,12 @@ def _apply_impl(m, t, op, kinds, names):
     if k == "mask":
         return t[np.array(op["m"], dtype=bool)], kinds, names
     if k in ("concat", "concatL"):
-        o = type(t)(*[_column(m, kk, c) for kk, c in zip(kinds, op["other"])])
         if len(op["other"]) != len(kinds):
             raise ValueError("width")
+        if src == "file" and tname and len(kinds) == len(m["classes"][tname][1]) and sum(map(len, op["other"])) % 2 == 0:
+            o = _read_table(m, tname, op["other"])      # both operands lazily read (every other case: one read, one in memory)
+        else:
+            o = _dcls(t)(*[_column(m, kk, c, wide) for kk, c in zip(kinds, op["other"])])
         return np.concatenate([t, o] if k == "concat" else [o, t]), kinds, names
     if k == "pred":
         col = getattr(t, names[op["j"]])
@@ -940,17 +1081,17 @@ def _apply_impl(m, t, op, kinds, names):
         return t.sort_by(names[op["j"]]), kinds, names
     if k == "replace":
         j = op["j"]
-        return bnp.replace(t, **{names[j]: _column(m, kinds[j], op["c"])}), kinds, names
+        return bnp.replace(t, **{names[j]: _column(m, kinds[j], op["c"], wide)}), kinds, names
     if k == "add":
         new_names = ["x%d" % (len(names) + i) for i in range(len(op["kinds"]))]
-        fields = {nn: _column(m, kk, c) for nn, kk, c in zip(new_names, op["kinds"], op["new"])}
+        fields = {nn: _column(m, kk, c, wide) for nn, kk, c in zip(new_names, op["kinds"], op["new"])}
         tmap = {nn: m["pytype"][kk] for nn, kk in zip(new_names, op["kinds"])}
         return t.add_fields(fields, field_type_map=tmap), kinds + op["kinds"], names + new_names
     raise ValueError(k)
 
 
 def _final(m, t, kinds, how, rows):
-    cls = type(t)
+    cls = _dcls(t)
     if how == "tolist":
         return _rows_tolist(t, kinds) == rows
     if how == "iter":
@@ -970,8 +1111,9 @@ def impl(c):
     cls, kinds, names = m["classes"][c["type"]]
     kinds, names = list(kinds), list(names)
     if c["op"] in ("program",):
+        src = c.get("src")
         try:
-            t = _table(m, c["type"], c["cols"])
+            t = _table(m, c["type"], c["cols"], src)
         except Exception as e:
             return {"err": "harness-construct:" + type(e).__name__}
         unchanged = True
@@ -980,7 +1122,7 @@ def impl(c):
             before = None if fresh else _rows_tolist(t, kinds)
             old_kinds = list(kinds)
             try:
-                t2, kinds, names = _apply_impl(m, t, op, kinds, names)
+                t2, kinds, names = _apply_impl(m, t, op, kinds, names, src, c["type"])
                 lens = {len(getattr(t2, f.name)) for f in dataclasses.fields(t2)}
             except Exception as e:
                 return {"err": "raise", "at": op["k"], "exc": type(e).__name__}
@@ -1050,13 +1192,40 @@ def impl(c):
             return {"text": got, "encoding_is_declared": bool(col.encoding == D)}
         except Exception as e:
             return {"err": "raise", "exc": type(e).__name__}
+    if c["op"] == "wide_text":
+        from bionumpy.bnpdataclass import make_dataclass
+        bnp = m["bnp"]
+        key = ("wide_cls", c["kind"])
+        if key not in _CACHE:
+            _CACHE[key] = make_dataclass([("t", m["pytype"][c["kind"]]), ("i", int)], name="Wide_" + c["kind"])
+        T = _CACHE[key]
+        texts, n = c["texts"], len(c["texts"])
+        plain = {"str": "x", "sid": "x", "dna": "A", "strand": "+"}[c["kind"]]
+        try:
+            x = _wide_text(texts, c["dtype"], flat=(c["kind"] == "strand"))
+            if c["how"] == "construct":
+                t, nm = T(x, list(range(n))), "t"
+            elif c["how"] == "replace":
+                t, nm = bnp.replace(T([plain] * n, list(range(n))), t=x), "t"
+            else:
+                t, nm = T([plain] * n, list(range(n))).add_fields({"y": x}, {"y": m["pytype"][c["kind"]]}), "y"
+            got = [str(_py(getattr(e, nm))) for e in t.tolist()]
+            col = getattr(t, nm).tolist()
+            col = list(col) if isinstance(col, str) else [str(v) for v in col]
+            its = [str(_py(getattr(e, nm))) for e in t]
+            return {"text": got, "column": col, "iter": its, "ids": [int(v) for v in t.i]}
+        except Exception as e:
+            return {"err": "raise", "exc": type(e).__name__}
     if c["op"] == "pick":
-        i = np.int64(c["i"]) if c["np"] else int(c["i"])
+        # the row number as a Python int or as the NumPy integer scalar np.argmax / np.flatnonzero(...)[0] / iteration over
+        # an index array give (c["np"]: False / True = int64 / the name of the scalar type)
+        i = int(c["i"]) if not c["np"] else getattr(np, "int64" if c["np"] is True else c["np"])(c["i"])
+        src = c.get("src")
 
         def selected():
-            t = _table(m, c["type"], c["cols"])
+            t = _table(m, c["type"], c["cols"], src)
             for op in c["ops"]:                       # fresh: nothing reads the selection before it is indexed
-                t, _, _ = _apply_impl(m, t, op, kinds, names)
+                t, _, _ = _apply_impl(m, t, op, kinds, names, src, c["type"])
             return t
         try:
             if c["by"] == "table":
@@ -1274,6 +1443,11 @@ def agree(c, got, exp):
             return True
         want = [c["text"], c["text"][:1]] if c["shape"] == "ragged" else list(c["text"])
         return isinstance(got, dict) and got.get("text") == want and got.get("encoding_is_declared") is True
+    if c["op"] == "wide_text":
+        if isinstance(got, dict) and got.get("err") == "raise":
+            return True
+        return isinstance(got, dict) and got.get("text") == c["texts"] and got.get("column") == c["texts"] \
+            and got.get("iter") == c["texts"] and got.get("ids") == list(range(len(c["texts"])))
     if c["op"] == "sort_text":
         return core.canon(got) == core.canon(exp)
     if c["op"] == "pick":
@@ -1316,6 +1490,9 @@ def live_cases(tier, rng):
         tname = rng.choice(names)
         cols, ops = _random_program(m["classes"][tname][1], rng, 8)
         c = {"op": "program", "type": tname, "cols": cols, "ops": ops, "final": "tolist", "fresh": True}
+        src = rng.choice([None, None] + srcs(tname, rng.randrange(len(WIDE_DT))))
+        if src:
+            c["src"] = src
         if _sort_unambiguous(c) and "err" not in oracle(c):
             out.append(c)
     return out
@@ -1325,9 +1502,9 @@ def impl_live(c):
     m = _mods()
     cls, kinds, names = m["classes"][c["type"]]
     kinds, names = list(kinds), list(names)
-    t = _table(m, c["type"], c["cols"])
+    t = _table(m, c["type"], c["cols"], c.get("src"))
     for op in c["ops"]:
-        t, kinds, names = _apply_impl(m, t, op, kinds, names)
+        t, kinds, names = _apply_impl(m, t, op, kinds, names, c.get("src"), c["type"])
     final_kinds = list(kinds)
     return t, (lambda obj: {"rows": _rows_tolist(obj, final_kinds), "width": len(final_kinds), "unchanged": True, "final": {}})
 
@@ -1405,6 +1582,8 @@ def finding_key(c, got, exp):
     kinds = m["classes"][c["type"]][1]
     if c["op"] == "construct_enc":
         return "construct:encoded-in-other-alphabet-" + ("silently-different-text" if "text" in got else "other")
+    if c["op"] == "wide_text":
+        return "construct:wide-character-codes-" + c["kind"] + "-silently-different-text"
     if c["op"] == "sort_text":
         return "sort_by:text-order-" + c["kind"] + ("-one-letter-rows" if c.get("flat") else "")
     if c["op"] == "pick":
